@@ -300,4 +300,58 @@ macro "mp_sym" : tactic => `(tactic|
     if_true, if_false, bne_iff_ne, ne_eq, decide_true, decide_false, not_false_eq_true, not_true_eq_false,
     Bool.false_eq_true, Bool.not_true, Bool.not_false]))
 
+/-! ### fourth round: `for x, y in zip(a, b)`, conditional expressions, tuples of ints and slices -/
+
+theorem exec_forZip (env : Env) (x y : String) (e1 e2 : Expr) (body : Stmt) :
+    exec env (.forZip x y e1 e2 body) =
+      ((eval env e1 >>= iterItems) >>= fun i1 => (eval env e2 >>= iterItems) >>= fun i2 =>
+        (i1.zip i2).foldlM (fun env vw => exec (setVar (setVar env x vw.1) y vw.2) body) env) := by
+  simp only [exec, bind_assoc]
+
+/-- simulation rule for `for x, y in zip(…)`: as `forIn_sim`, the loop sees the pair `item b` -/
+theorem forZip_sim {σ β : Type} (x y : String) (body : Stmt) (A : σ → Env → Prop) (item : β → Val × Val)
+    (step : σ → β → Except Err σ)
+    (bs : List β)
+    (hstep : ∀ s b env, b ∈ bs → A s env →
+      match step s b with
+      | .ok s' => ∃ env', exec (setVar (setVar env x (item b).1) y (item b).2) body = .ok env' ∧ A s' env'
+      | .error e => exec (setVar (setVar env x (item b).1) y (item b).2) body = .error e) : ∀ s env, A s env →
+      match bs.foldlM step s with
+      | .ok s' => ∃ env', (bs.map item).foldlM (fun env vw => exec (setVar (setVar env x vw.1) y vw.2) body) env
+            = .ok env' ∧ A s' env'
+      | .error e => (bs.map item).foldlM (fun env vw => exec (setVar (setVar env x vw.1) y vw.2) body) env
+            = .error e := by
+  induction bs with
+  | nil => intro s env h; exact ⟨env, rfl, h⟩
+  | cons v t ih =>
+    intro s env h
+    have ih := ih (fun s b env hb => hstep s b env (List.mem_cons_of_mem _ hb))
+    have hs := hstep s v env (List.mem_cons_self) h
+    simp only [List.foldlM_cons, List.map_cons]
+    cases hv : step s v with
+    | error e =>
+      rw [hv] at hs
+      simp only [hs, bind_error']
+    | ok s' =>
+      rw [hv] at hs
+      obtain ⟨env', he, ha⟩ := hs
+      simp only [he, bind_ok']
+      exact ih s' env' ha
+
+/-- `p and q` / `p or q` on booleans, after `truthy_bool` (whatever decidability instance simp left in the `if`) -/
+theorem and_bool (p q : Bool) [inst : Decidable (p = true)] :
+    (@ite _ (p = true) inst (Except.ok (Val.bool q) : Except Err Val) (Except.ok (Val.bool p))) = .ok (.bool (p && q)) := by
+  cases p <;> simp
+theorem or_bool (p q : Bool) [inst : Decidable (p = true)] :
+    (@ite _ (p = true) inst (Except.ok (Val.bool p) : Except Err Val) (Except.ok (Val.bool q))) = .ok (.bool (p || q)) := by
+  cases p <;> simp
+
+/-- `truthy_bool` as a proper rewrite rule (not `rfl`: simp then also rewrites the decidability instance of an `if`) -/
+theorem truthy_bool' (b : Bool) : truthy (.bool b) = b := by cases b <;> rfl
+
+theorem iterItems_tuple (l : List Item) : iterItems (.tuple l) = .ok (l.map Item.toVal) := rfl
+theorem iterItems_ilist (l : List Int) : iterItems (.ilist l) = .ok (l.map .int) := rfl
+theorem toVal_int (i : Int) : Item.toVal (.int i) = .int i := rfl
+theorem toVal_slice (a b c : Option Int) : Item.toVal (.slice a b c) = .slice a b c := rfl
+
 end Pydap
